@@ -25,9 +25,9 @@ STATUS = {
  "C14": ("resolvers_agree_partial + 3 witnesses, private_rejected, exported_iff, private_decl_rejected, work-list lemmas", "both resolvers on real trees (incl. deep entries, multi-level parents), visibility verdicts, export computation on generated modules", "agreement, visibility, missing/cycle"),
  "C15": ("all_pinned, unknown_refused, deps_exact, names_nodup", "ProjectGenerator + `incan build` (stub cargo) + trigger positions", "exactness, pinning, refs ⊆ declared"),
  "C16": ("verdict_truthful, skip_not_run, xfail_inverts, filter_exact, all_selected_reported, exit_iff_failure, counts_match (Props/C16, Tool/TestRunner)", "real `incan test` on generated files (every executed test through cargo test)", "ground truth of the test bodies, -k / --slow / -x, four @skip spellings"),
- "C17": ("construction_validated_partial, rejected_argument_stops, own_methods_exempt, other_methods_checked, select_sound / select_from_underlying / select_single, nominal, alias_bypasses witness (Props/C17, Sem/Newtype)", "compiled programs: 11 declaration shapes × 19 sites × values; 6 underlying types", "hook enforced outside own methods; mixing newtypes rejected"),
+ "C17": ("construction_validated_partial, rejected_argument_stops, own_methods_exempt, other_methods_checked, select_sound / select_from_underlying / select_single, nominal, alias_bypasses witness (Props/C17, Sem/Newtype)", "compiled programs: 11 fixed declaration shapes + generated ones (1-3 methods, hook-shaped or near misses, hook-like and other names) × 19 sites × values; 6 underlying types", "hook enforced outside own methods; mixing newtypes rejected"),
  "C18": ("converges for all interleavings (ticket protocol); 3 counter-examples for the old protocol", "event-log replay", "hover = latest after quiescence"),
- "C19": ("roundtrip, strict_mono, counting, range_wellformed, terminal line; column partial", "5 streams, exhaustive small documents", "counting in Python"),
+ "C19": ("roundtrip, strict_mono, counting, range_wellformed, terminal_line_agrees, terminal_col_agrees (unconditional since the character-column fix; old_terminal_col_counted_bytes keeps the pre-fix witness)", "5 streams, exhaustive small documents; rendered caret line", "counting in Python"),
  "C20": ("roundtrip (mutual, any depth), json_field_names, type_mapping, eq_iff_structural, eq_fields, ord_lexicographic, cmpV_swap (mutual, any depth), lt_iff_gt, cmpV_refl_of_eq, hash_respects_eq, derives_closed, derives_kept, chain_fields_in_declaration_order / chain_lookup (inherited fields, Props/C20, Sem/Derive)", "compiled programs: json_stringify + from_json, six comparison operators, Dict keys, clone (fields declared on one model/class or over a chain of 2-3 classes); emitted #[derive] list for subsets", "Python json / tuple order; rustc supertrait closure"),
 }
 
@@ -121,20 +121,26 @@ operators, …), not a patch.
         det = str(d.get("detected_by", "")).replace("|", "/").replace("\n", " ")[:330]
         out.append(f"| {d.get('seed_id')} | {need} | {det} |")
     out.append("""
-Every claimed property has two stored seeds from round 1 (40); round 2 (seeds `-3`, `-4` of C01, C02, C03, C20: the
-sub-agents were told to stay away from the mechanisms of round 1) produced 8 more, 7 of which were MISSED at first:
-the generated programs had no classes / inheritance / counting-down ranges (C01), never contained an ill-typed
-shape or a derive list without `Eq` (C02), named enum variants V0..V4 and called one-parameter functions (C03),
-and never declared fields over an `extends` chain (C20). Each miss was answered by widening the generator and,
-where the mechanism was not modelled yet, by a model + theorem (validateArgs / wrong_argument_reported;
-classFields / chain_fields_in_declaration_order; emitTok spelling tie and sibling names for C13). Widening them
-exposed four more genuine defects, all repaired (`mut self` method on an immutable receiver, `mut` parameters,
-trait-typed parameters accepting anything, cyclic `extends` overflowing the stack). Misses at first run and what was strengthened are
+Every claimed property has two stored seeds from round 1 (40). Round 2 (seeds `-3`, `-4`; the sub-agents were told
+to stay away from the mechanisms of round 1) has produced __R2__ more so far, __R2MISS__ of which were MISSED at first
+(__R2MISSLIST__): the generated programs had no classes / inheritance / counting-down ranges (C01), never contained
+an ill-typed shape or a derive list without `Eq` (C02), named enum variants V0..V4 and called one-parameter functions
+(C03), never declared fields over an `extends` chain (C20), and used eleven fixed newtype declaration shapes (C17).
+Each miss was answered by widening the generator and, where the mechanism was not modelled yet, by a model + theorem
+(validateArgs / wrong_argument_reported / surplus_argument_reported / missing_argument_reported; conformance /
+missing_required_method_reported; classFields / chain_fields_in_declaration_order; inheritedMethods /
+method_call_runs_most_derived_body; emitTok spelling tie and sibling names for C13). Widening them exposed more
+genuine defects, all repaired: `mut self` method on an immutable receiver, `mut` parameters, trait-typed parameters
+accepting anything, cyclic `extends` overflowing the stack, calls never checked for arity. Misses at first run and what was strengthened are
 recorded in each `meta.json` (`detected_by`): C03-1/2, C06-1/2 (only the correspondence broke; oracles added), C08-2,
 C09-2, C11-1/2, C12-2, C14-1/2, C15-2, C16-1/2. Sub-agents also reported pre-existing defects, several of which became
 `fix:` commits (compound field assignment grouping, `elif` scanners, trait-method diagnostic order, newtype hook over
 generic underlying types, unknown slice bound in consts) or findings.
 """)
+    metas = [json.load(open(m)) for m in sorted(glob.glob(os.path.join(HERE, "seeded", "*", "meta.json")))]
+    r2 = [m for m in metas if m.get("round") == 2]
+    miss = [m["seed_id"] for m in r2 if str(m.get("detected_by", "")).startswith("MISSED")]
+    out[-1] = out[-1].replace("__R2__", str(len(r2))).replace("__R2MISSLIST__", ", ".join(miss)).replace("__R2MISS__", str(len(miss)))
     out.append("""## Appendix E — hooks
 
 One guarded hook, commit `3c16098`: `src/lsp/mod.rs` gains `#[cfg(incan_verif)] pub mod verif_hooks` (in-memory
